@@ -21,7 +21,8 @@ CLAIM = dict(
           'datetime64 / timedelta64 type is preceded by rounding (recorded finding: PrimitiveEquationsSpecs.dimensionalize_timedelta64 truncates on both of its branches); '
           'at every time-conversion site the numpy time unit and the pint unit denote the same unit; orbital phases are 2π·fraction with the minutes-per-day / '
           'days-in-year constants, the model-time → phase map adds rate·time and reduces by a floor-mod with one modulus 2π. Does not decide floating-point '
-          'exactness of the round trips, nor pint\'s own unit algebra.'),
+          'exactness of the round trips, nor pint\'s own unit algebra.'
+          ' Later additions: C18.2 also covers calendar times re-expressed in a fixed unit (np.datetime64(x, unit) truncation) and sign-dependent truncation after adding ½.'),
     note=('pint quantities and numpy datetime64/timedelta64 semantics are trusted. The truncation finding is pinned by the existing test '
           'test_equivalent_rounding_behavior and is therefore recorded, not repaired.'),
     technique='sibling agreement of the two Scale directions (shared factor) + dataflow rule "float time → integer type passes through round" + unit-pair table + normal forms of phase maps',
